@@ -303,6 +303,11 @@ theorem inv2_clientStep (cfg : Config) {s s' : St} {l : Lbl} {t : Nat} (h : Inv2
       · simp only [Option.some.injEq, Prod.mk.injEq] at hs
         exact hs.2 ▸ ⟨inv_setThr hi _ _, tokPc_setThr hk (by intro _ h2; simp at h2)⟩
       · simp at hs
+    -- waitRan
+    · split at hs
+      · simp only [Option.some.injEq, Prod.mk.injEq] at hs
+        exact hs.2 ▸ ⟨inv_setThr hi _ _, tokPc_setThr hk (by intro _ h2; simp at h2)⟩
+      · simp at hs
     -- dtor
     · simp only [Option.some.injEq, Prod.mk.injEq] at hs
       exact hs.2 ▸ ⟨inv_setThr hi _ _, tokPc_setThr hk (by intro _ h2; simp at h2)⟩
